@@ -69,6 +69,11 @@ func main() {
 		code := runSelftest(repo, verifDir, only)
 		os.RemoveAll(workDir)
 		os.Exit(code)
+	case "locals":
+		// gocv locals: records, for every function under contract with loop invariants, the names of its
+		// locals in declaration order (contracts/locals.json).  Used only to keep invariants applicable when
+		// a local is merely renamed: an unknown name is then looked up by its recorded position.
+		os.Exit(writeLocals(repo, verifDir))
 	case "replay":
 		if len(os.Args) < 3 {
 			fmt.Fprintln(os.Stderr, "usage: gocv replay <file>")
